@@ -58,7 +58,7 @@ def handle (line : String) : String :=
     match Kind.ofTag k, seq.toInt?, ofHex rnd, len.toNat?, last.toNat? with
     | some k, some seq, some rnd, some len, some last =>
       let l := UInt8.ofNat last
-      toHex (encHead cfg k seq len l) ++ " " ++ (if k = .full then "-" else toHex (encTail crc32 k rnd [] l))
+      toHex (encHead cfg k seq len l) ++ " " ++ (if k = .full then "-" else toHex (encTail cfg crc32 k rnd [] l))
     | _, _, _, _, _ => "bad-op"
   | ["detect", h] =>
     match ofHex h with
